@@ -194,5 +194,5 @@ def space(tier):
         return {"config": {"version": 3, "cred_form": rng.choice(["hex", "bytes"]),
                            "token": rand_bytes(rng, 64).hex(), "key": rand_bytes(rng, 32).hex(),
                            "device_id": rand_id(rng)}, "scenario": rng.choice(["fresh", "stored"]), "alt": alt}
-    sp.add("random_keys", 1500 if tier == "quick" else 150_000, rnd)
+    sp.add("random_keys", 8000 if tier == "quick" else 150_000, rnd)
     return sp
